@@ -52,6 +52,8 @@ type mergeRun struct {
 	err    error
 	loaded segment.Segment
 	lerr   error
+	// alias: the same segment OBJECT occurs more than once in the input list
+	alias bool
 }
 
 func (r *mergeRun) String() string {
@@ -212,7 +214,7 @@ func (r *mergeRun) zeroSurvivors() bool { return len(r.want.Docs) == 0 }
 func init() {
 	register(&explore.Prop{
 		ID: "C02", Level: levelMC, Explorer: "E1 input-space enumerator",
-		Rule: "every list of <=k segments (each a MIX batch of <=2 docs over K kinds, incl. the empty batch) x every deletion bitmap (nil, empty, every subset) x configurations (input chunk modes, input form built/loaded/previously merged, output mode); merged with the real merger, loaded, observed and compared with (a) the reference model and (b) New(survivors); " +
+		Rule: "every list of <=k segments (each a MIX batch of <=2 docs over K kinds, incl. the empty batch) x every deletion bitmap (nil, empty, every subset) x configurations (input chunk modes, input form built/loaded/previously merged, output mode); merged with the real merger, loaded, observed and compared with (a) the reference model and (b) New(survivors); MERGE-LARGE (cardinalities / document counts around 1024); MERGE-ALIAS (the same segment object twice in one list, [S,S] and [S,T,S], every pair of bitmaps); MERGE(2,3,2) under 8 norm tables of unusual float32 bit patterns; " +
 			"distinct = distinct (configuration, segment list, bitmaps); non-trivial = >=1 dropped doc, or two segments share a term, or field lists differ",
 		Assumptions: commonAssumptions, Budget: qBudget, Run: runC02,
 	})
@@ -264,7 +266,7 @@ func runC02(c *explore.Ctx) {
 		// deleted documents unreachable: every _id term of a dropped doc is gone
 		for i, b := range r.batches {
 			for j := range b {
-				if r.dropSets[i] != nil && r.dropSets[i][uint64(j)] {
+				if !r.alias && r.dropSets[i] != nil && r.dropSets[i][uint64(j)] {
 					id := fmt.Sprintf("s%d%d", i, j)
 					for _, t := range got.Dicts["_id"] {
 						if t.Term == id {
@@ -285,6 +287,93 @@ func runC02(c *explore.Ctx) {
 		mergeSweep(c, 4, 3, 1, mergeCfgsQuick[:1], check)
 	}
 	largeMerges(c, check)
+	aliasMerges(c, check)
+	normMerges(c, check)
+}
+
+// normMerges: the MERGE(2,3,2) sweep under norms with unusual float32 bit patterns (the merger
+// packs the norm of a single surviving posting into the 1-hit dictionary value).
+func normMerges(c *explore.Ctx, check func(scope string, idx int64, r *mergeRun)) {
+	for _, nm := range model.NormModes() {
+		cfg := mergeCfgsQuick[0]
+		cfg.Name = fmt.Sprintf("%s-norms%d", cfg.Name, nm)
+		model.WithNormMode(nm, func() {
+			mergeSweep(c, 2, 3, 2, []mergeCfg{cfg}, check)
+		})
+	}
+}
+
+// aliasMerges: MERGE-ALIAS - the same segment object twice in one input list ([S,S] and [S,T,S])
+// with every pair of deletion bitmaps: per-segment state of the merger must be per list POSITION.
+func aliasMerges(c *explore.Ctx, check func(scope string, idx int64, r *mergeRun)) {
+	scope := "MERGE-ALIAS"
+	var idx int64
+	K := 4
+	partner := []model.Doc{gen.MixDoc(gen.MergeKinds[1], "t", 0)}
+	for n := 0; n <= 2; n++ {
+		gen.Pow(K, n, func(v []int) bool {
+			kinds := append([]int(nil), v...)
+			var dropOpts []gen.SegSpec
+			for _, o := range gen.SegOptions(1, n) { // deletion options for n documents
+				if len(o.Kinds) == n {
+					dropOpts = append(dropOpts, gen.SegSpec{Kinds: kinds, Drops: o.Drops, DropForm: o.DropForm})
+				}
+			}
+			for _, d0 := range dropOpts {
+				for _, d1 := range dropOpts {
+					for withPartner := 0; withPartner < 2; withPartner++ {
+						my := idx
+						idx++
+						if !c.MineIdx(scope, my) {
+							continue
+						}
+						c.Eval()
+						batch := d0.Batch("s0")
+						seg, err := build(batch, 1025)
+						if err != nil {
+							c.Violate(scope, my, sigOf(c.Prop, "inputs", "error: "+err.Error()), err.Error(), fmt.Sprint(kinds))
+							continue
+						}
+						ls := model.Build(batch)
+						r := &mergeRun{cfg: mergeCfg{Name: "alias", InModes: []uint32{1025}, Out: 1025}, alias: true}
+						add := func(sg segment.Segment, l *model.LSeg, b []model.Doc, sp gen.SegSpec) {
+							r.segs = append(r.segs, sg)
+							r.lsegs = append(r.lsegs, l)
+							r.batches = append(r.batches, b)
+							r.specs = append(r.specs, sp)
+							if sp.DropForm == 0 {
+								r.drops = append(r.drops, nil)
+								r.dropSets = append(r.dropSets, nil)
+							} else {
+								r.drops = append(r.drops, bitmapOf(sp.Drops...))
+								ds := map[uint64]bool{}
+								for _, d := range sp.Drops {
+									ds[uint64(d)] = true
+								}
+								r.dropSets = append(r.dropSets, ds)
+							}
+						}
+						add(seg, ls, batch, d0)
+						if withPartner == 1 {
+							pseg, err := build(partner, 1025)
+							if err != nil {
+								panic(err)
+							}
+							add(pseg, model.Build(partner), partner, gen.SegSpec{Kinds: []int{1}})
+						}
+						add(seg, ls, batch, d1)
+						r.want, r.wantNums = model.Merge(r.lsegs, r.dropSets)
+						if n > 0 {
+							c.Nontrivial()
+						}
+						r.run()
+						check(scope, my, r)
+					}
+				}
+			}
+			return !c.Expired()
+		})
+	}
 }
 
 // countMergeShape records which mechanisms the merge exercised.
